@@ -283,7 +283,17 @@ def run(repo, tier):
                     undecided.append('{}:{} the text of this Line is not an element of <source>.splitlines()'.format(q, node.lineno))
                 continue
             wrong = None
+            # the number may also be a counter with a known offset from the position the text was read at (rows[i] ... i + 1)
+            sym_n = args.syms.get(1, args.syms.get(pnames[1] if len(pnames) > 1 else None))
+            sym_t = args.syms.get(2, args.syms.get(pnames[2] if len(pnames) > 2 else None))
+            by_counter = None
+            if isinstance(sym_n, tuple) and sym_n[0] == 'ctr' and isinstance(sym_t, tuple) and sym_t[0] == 'at' and sym_n[1] == sym_t[1]:
+                by_counter = sym_n[2] - sym_t[2]
             for a in numbers:
+                if by_counter is not None and a[0] != 'idx':
+                    if by_counter != 1:
+                        wrong = 'the line number is the position of the text counted from {} (must be 1-based)'.format(by_counter)
+                    continue
                 if a[0] == 'idx':
                     if a[1] is None:
                         undecided.append('{}:{} enumerate() start is not a known constant'.format(q, node.lineno))
@@ -306,7 +316,9 @@ def run(repo, tier):
             for a in files:
                 if a in allowed or (const_ok and a[0] == 'c' and a[1] == 'str'):
                     continue
-                if a[0] in ('str', 'c'):
+                if a[0] == 'str' and a[2] is None:
+                    undecided.append('{}:{} where the file name of this Line comes from is not established'.format(q, node.lineno))
+                elif a[0] in ('str', 'c'):
                     wrong = wrong or 'the file recorded is not the path that was opened to read this source'
                 else:
                     undecided.append('{}:{} the file of this Line is not understood'.format(q, node.lineno))
